@@ -43,9 +43,11 @@ ASSUMPTIONS = [
     'PyCA primitives are correct (shared by asyncssh and RefPeer)',
     'RefPeer was written by the author of the oracles; it shares no code '
     'with asyncssh',
-    'umac-*, RSA key exchange, curve448 and the ML-KEM hybrids are not '
-    'implemented by RefPeer; those combinations are exercised asyncssh<->'
-    'asyncssh only (C01, C03, C11)',
+    'umac-*, RSA key exchange and curve448 are not implemented by RefPeer; '
+    'those combinations are exercised asyncssh<->asyncssh only (C01, C03, '
+    'C11). For the ML-KEM hybrids RefPeer wires the exchange itself and '
+    'takes the KEM primitive from PyCA (key generation, decapsulation) and '
+    'from refssh/mlkem.py (encapsulation, written from FIPS 203)',
 ]
 
 REAL = ['asyncssh endpoint (client or server role): connection, kex_dh, '
